@@ -39,12 +39,18 @@ def render_class(name, c, names):
     for j, r in enumerate(c["rel"]):
         if r == "member":
             L.append("  %s m%d;" % (names[j], j))
+        elif r == "arrmember":
+            L.append("  %s a%d[2];" % (names[j], j))
+        elif r == "staticmember":
+            L.append("  static %s s%d;" % (names[j], j))
     if c["vf"] == "virt":
         L.append("  virtual void f();")
     elif c["vf"] == "pure":
         L.append("  virtual void f() = 0;")
     elif c["vf"] == "over":
         L.append("  void f() override;")
+    elif c["vf"] == "overc":
+        L.append("  void f() const;")      # an overload: does not override void f()
     L.append("};")
     return "\n".join(L)
 
@@ -86,7 +92,7 @@ def features(rec, k):
     cs, v = rec["c"], rec["v"]
     c = cs[k]
     bases = [j for j, r in enumerate(c["rel"]) if r in BASEKW]
-    members = [j for j, r in enumerate(c["rel"]) if r == "member"]
+    members = [j for j, r in enumerate(c["rel"]) if r in ("member", "arrmember")]
     f = []
     if any(v[b]["abs"] for b in bases) and not v[k]["abs"]:
         f.append("absbase")
